@@ -27,7 +27,7 @@ def run(check):
     r = tlc.run_tlc('SimPyEv', cfg, workers=8)
     if r.errors or r.violated:
         raise core.MachineryError('SimPyEv.tla: %s' % (r.violated or r.errors)[:3])
-    scenarios, bad = parse_witnesses(r.out)
+    scenarios, bad = parse_witnesses(r)
     check.states += r.distinct
     check.transitions += r.generated
     check.tlc_runs.append({'label': 'scripts', 'module': 'SimPyEv', 'constants': consts, 'distinct': r.distinct,
